@@ -46,8 +46,8 @@ func checkC01(c *Ctx) {
 	ruleR16(c, dv, modes, "R1.6")
 	ruleDispatch(c, dv, "R1.8", true, true)
 	c.importRules(transportRules, []string{"R15.1", "R15.2", "R15.5", "R15.7"}, "R1.9") // a Note Off swallowed or altered on the way to the port leaves the note sounding
-	c.importRules(emulationReachRules, []string{"R8.9"}, "R1.10")              // an emulated key always sees its return to centre (no filter in front of the type switch swallows it)
-	ruleCounterInit(c, dv, "R1.7")                                             // one zeroed holder count per (channel, note): a shared table makes the last-holder test wrong and the Note Off is withheld
+	c.importRules(emulationReachRules, []string{"R8.9"}, "R1.10")                       // an emulated key always sees its return to centre (no filter in front of the type switch swallows it)
+	ruleCounterInit(c, dv, "R1.7")                                                      // one zeroed holder count per (channel, note): a shared table makes the last-holder test wrong and the Note Off is withheld
 	c.MinCount("R1.1", 8)
 	c.MinCount("R1.2", 8)
 	c.MinCount("R1.3", 8)
